@@ -132,6 +132,9 @@ pub struct HandlerRunner {
     wire_dst_hint: Option<SocketAddr>,
     /// the step delivers a WHOAREYOU from an address other than the one the echoed request went to
     cur_wru_foreign: bool,
+    /// the datagram being delivered is a handshake for which this node has no challenge outstanding
+    /// (for that node id at that source address)
+    cur_hs_unchallenged: bool,
     /// whether the datagram being delivered carries a ciphertext that verifies under a known key
     cur_authentic: bool,
     ttl_ms: u64,
@@ -174,6 +177,7 @@ impl Default for HandlerRunner {
             cur_src: None,
             wire_dst_hint: None,
             cur_wru_foreign: false,
+            cur_hs_unchallenged: false,
             cur_authentic: true,
             ttl_ms: 86_400_000,
             old_keys_mark: 0,
@@ -707,6 +711,12 @@ impl HandlerRunner {
             self.wire.push(Datagram { from_idx: idx, src, dst, dst_id, bytes });
             out.push(format!("!INFO wire #{} {}->{} {}", k, idx, dst_idx, sends.last().unwrap()));
         }
+        if self.cur_hs_unchallenged && (!events.is_empty() || !sends.is_empty()) {
+            // a handshake packet counts only while a WHOAREYOU of this node is outstanding for its
+            // sender; otherwise it is dropped without any effect
+            out.push(format!("!MON C03 handshake-without-outstanding-challenge-acted-on node={} reaction={}", idx,
+                events.iter().chain(sends.iter()).next().map(|s| s.chars().take(60).collect::<String>()).unwrap_or_default()));
+        }
         let all: Vec<String> = events.into_iter().chain(sends).collect();
         let ex = self.exempt(ni);
         self.mon_exempt(ni, out);
@@ -814,7 +824,14 @@ impl HandlerRunner {
         };
         match self.ledger.outstanding_chal.remove(&(at, cd)) {
             None => out.push(format!("!MON C03 handshake-accepted-for-consumed-or-foreign-challenge node={} cd={}", at, cd)),
-            Some((armed_at, _, _)) => {
+            Some((armed_at, _, chal_addr)) => {
+                // the challenge went to one address; only a handshake from there answers it
+                if let Some(from) = self.cur_from {
+                    if from != chal_addr {
+                        out.push(format!("!MON C03 handshake-accepted-from-unchallenged-address node={} challenged={} from={}", at, chal_addr, from));
+                        out.push(format!("!MON C01 identity-accepted-from-unchallenged-address node={} challenged={} from={}", at, chal_addr, from));
+                    }
+                }
                 // a handshake with a bad signature legitimately re-arms the challenge timer: `armed_at`
                 // is refreshed whenever any handshake for that node address is delivered (see `hdel`)
                 if self.now_ms > armed_at + self.timeout_ms + 2 {
@@ -1017,6 +1034,7 @@ impl HandlerRunner {
         // flags describing the delivered datagram only apply to the reaction to it, not to what
         // timers do while time passes afterwards
         self.cur_wru_foreign = false;
+        self.cur_hs_unchallenged = false;
         for &dt in dts {
             if dt == 0 {
                 continue;
@@ -1059,6 +1077,7 @@ impl HandlerRunner {
             self.cur_src = None;
             self.cur_authentic = true;
             self.cur_wru_foreign = false;
+            self.cur_hs_unchallenged = false;
         }
         match t {
             // application of node X sends a request to node Y
@@ -1184,11 +1203,7 @@ impl HandlerRunner {
                 stats.bump("h.op.deliver");
                 self.last_sig_cd = None;
                 let term = self.describe(&d.bytes, tidx, d.from_idx, false);
-                if let Some((k_ini, _)) = self.last_hs_keys {
-                    // the recipient's session (if the handshake is accepted) lives at this source
-                    let e = self.key_addrs.entry((tidx, k_ini)).or_default();
-                    if !e.contains(&src) { e.push(src); }
-                }
+                let hs_keys_here = self.last_hs_keys;
                 self.cur_from = Some(src);
                 self.cur_key = self.last_ct_key;
                 self.delivering_handshake = term.as_ref().map(|t| t.starts_with("H~")).unwrap_or(false);
@@ -1207,10 +1222,22 @@ impl HandlerRunner {
                         }
                     }
                 }
+                self.cur_hs_unchallenged = false;
                 if self.delivering_handshake {
                     let claimed: u64 = term.as_ref().and_then(|t| t.split('~').nth(1).and_then(|x| x.parse().ok())).unwrap_or(0);
                     let now = self.now_ms;
                     let timeout = self.timeout_ms;
+                    // is a WHOAREYOU of this node outstanding for that node id at that source address?
+                    // (generous by a few ms: the ledger's clock is not the delay queue's)
+                    let challenged = self.ledger.outstanding_chal.iter().any(|((n, _), v)| *n == tidx && v.1 == claimed && v.2 == src && now <= v.0 + timeout + 5);
+                    self.cur_hs_unchallenged = !challenged;
+                    if challenged {
+                        if let Some((k_ini, _)) = hs_keys_here {
+                            // the recipient's session (if the handshake is accepted) lives at this source
+                            let e = self.key_addrs.entry((tidx, k_ini)).or_default();
+                            if !e.contains(&src) { e.push(src); }
+                        }
+                    }
                     for ((n, _), v) in self.ledger.outstanding_chal.iter_mut() {
                         // still alive (not expired by the ledger's clock): any handshake for that node
                         // address may re-arm it
@@ -1640,7 +1667,12 @@ pub fn gen_case(rng: &mut Rng, tier: &str, profile: &str, stats: &mut Stats) -> 
                 rid += 1;
                 if y != x { emitted += 1; }
             }
-            14..=55 => { ops.push("hdel next".into()); emitted += 1; }
+            14..=55 => {
+                // (in adversarial cases an in-flight datagram now and then arrives from another port of
+                // its sender's host instead: the original never arrives)
+                if adversarial && rng.chance(1, 25) { ops.push("hdel next 20".into()); } else { ops.push("hdel next".into()); }
+                emitted += 1;
+            }
             56..=58 => ops.push("hdel skip".into()),
             59..=62 => {
                 // duplicate / reordered delivery of an earlier datagram, sometimes from a foreign address
